@@ -104,9 +104,9 @@ package socket
 //@   requires h != nil && h.Service != nil
 //@   requires [request_within_limit] len(body) <= h.Service.MaxRequestLength
 //@   requires [body_completely_read] off(body) == 0 && ghost.bufn[arr(body)] == len(body)
-//@   requires [body_follows_its_header] hdr_crcok(ghost.rstream[ghost.bufsrc[arr(body)]], ghost.bufpos[arr(body)] - 12) &&
-//@       hdr_len(ghost.rstream[ghost.bufsrc[arr(body)]], ghost.bufpos[arr(body)] - 12) == len(body) &&
-//@       hdr_idx(ghost.rstream[ghost.bufsrc[arr(body)]], ghost.bufpos[arr(body)] - 12) == index
+//@   requires [header_checksum_valid] hdr_crcok(ghost.rstream[ghost.bufsrc[arr(body)]], ghost.bufpos[arr(body)] - 12)
+//@   requires [header_announces_this_length] hdr_len(ghost.rstream[ghost.bufsrc[arr(body)]], ghost.bufpos[arr(body)] - 12) == len(body)
+//@   requires [header_announces_this_index] hdr_idx(ghost.rstream[ghost.bufsrc[arr(body)]], ghost.bufpos[arr(body)] - 12) == index
 //@   stable h.Service
 //@   ensures [handles_exactly_this_request_once] ghost.handled == old(ghost.handled) + 1 && same(ghost.handled_req, body)
 //@   ensures [answers_at_most_once] ghost.chansent[queue] <= old(ghost.chansent[queue]) + 1
@@ -124,9 +124,9 @@ package socket
 //@   requires h != nil && h.Service != nil
 //@   requires [request_within_limit] len(body) <= h.Service.MaxRequestLength
 //@   requires [body_completely_read] off(body) == 0 && ghost.bufn[arr(body)] == len(body)
-//@   requires [body_follows_its_header] hdr_crcok(ghost.rstream[ghost.bufsrc[arr(body)]], ghost.bufpos[arr(body)] - 12) &&
-//@       hdr_len(ghost.rstream[ghost.bufsrc[arr(body)]], ghost.bufpos[arr(body)] - 12) == len(body) &&
-//@       hdr_idx(ghost.rstream[ghost.bufsrc[arr(body)]], ghost.bufpos[arr(body)] - 12) == index
+//@   requires [header_checksum_valid] hdr_crcok(ghost.rstream[ghost.bufsrc[arr(body)]], ghost.bufpos[arr(body)] - 12)
+//@   requires [header_announces_this_length] hdr_len(ghost.rstream[ghost.bufsrc[arr(body)]], ghost.bufpos[arr(body)] - 12) == len(body)
+//@   requires [header_announces_this_index] hdr_idx(ghost.rstream[ghost.bufsrc[arr(body)]], ghost.bufpos[arr(body)] - 12) == index
 
 //@ ghost toolarge int
 //@ func (*Handler).sendResponse
@@ -147,11 +147,13 @@ package socket
 //@   nopanic
 //@   havoc
 //@   modifies ghost.rpos[ival(conn)], ghost.bufsrc[*], ghost.bufpos[*], ghost.bufn[*], ghost.chansent[*], ghost.chanlen[*], ghost.chanrecv[*], ghost.spawned, ghost.dict_has[*], ghost.dict_int[*]
-//@   requires h != nil && h.Service != nil && ghost.rpos[ival(conn)] >= 0
+//@   requires h != nil && h.Service != nil && ghost.rpos[ival(conn)] >= 0 && ref(queue) != ref(errChan)
 //@   stable h.Service, h.Service.MaxRequestLength
 //@   loop 1 invariant ghost.rpos[ival(conn)] >= 0 && ghost.chansent[queue] == old(ghost.chansent[queue])
-//@   ensures [too_large_answered_under_its_index] ghost.chansent[queue] == old(ghost.chansent[queue]) + 1 ==>
-//@       lastsent(queue).Error == core.ErrRequestEntityTooLarge && lastsent(queue).Index == index && length > h.Service.MaxRequestLength
+//@   ensures [only_refusals_are_answered_here] ghost.chansent[queue] == old(ghost.chansent[queue]) + 1 ==>
+//@       lastsent(queue).Error == core.ErrRequestEntityTooLarge
+//@   ensures [refusal_under_the_request_index] ghost.chansent[queue] == old(ghost.chansent[queue]) + 1 ==> lastsent(queue).Index == index
+//@   ensures [refused_only_when_too_large] ghost.chansent[queue] == old(ghost.chansent[queue]) + 1 ==> length > h.Service.MaxRequestLength
 //@   ensures [at_most_one_refusal] ghost.chansent[queue] <= old(ghost.chansent[queue]) + 1
 
 // send (server): one response frame per iteration: header(len(body), index [| error bit]) then the body.
@@ -165,7 +167,8 @@ package socket
 //@   loop 1 ensures [frame_length] ghost.wpos[ival(conn)] == old(ghost.wpos[ival(conn)]) + 12 + len(body)
 //@   loop 1 ensures [header_carries_body_length] hdr_len(ghost.wstream[ival(conn)], old(ghost.wpos[ival(conn)])) == len(body) &&
 //@       ghost.wstream[ival(conn)][old(ghost.wpos[ival(conn)]) + 4] >= 128
-//@   loop 1 ensures [header_carries_index_and_no_error_bit] hdr_idx(ghost.wstream[ival(conn)], old(ghost.wpos[ival(conn)])) == response.Index &&
+//@   loop 1 ensures [header_carries_the_response_index] hdr_idx(ghost.wstream[ival(conn)], old(ghost.wpos[ival(conn)])) == wrapu32(response.Index) % 2147483648
+//@   loop 1 ensures [no_error_bit_on_a_successful_response] 0 <= response.Index && response.Index < 2147483648 ==>
 //@       hdr_noerr(ghost.wstream[ival(conn)], old(ghost.wpos[ival(conn)]))
 //@   loop 1 ensures [header_checksum_valid] hdr_crcok(ghost.wstream[ival(conn)], old(ghost.wpos[ival(conn)]))
 //@   loop 1 ensures [body_is_the_response_body] same(body, response.Body) &&
